@@ -27,18 +27,20 @@ LITS = {
         (0, ["0i32", "0x0i32", "-0i32", "K_I32_0"]), (1, ["1i32", "0x1i32", "0b1i32"]), (2, ["2i32", "0x2i32"]), (3, ["3i32"]),
         (4, ["4i32", "0x4i32"]), (5, ["5i32"]), (-1, ["-1i32"]), (-2, ["-2i32", "-2_i32"]),
         (2147483647, ["2147483647i32", "0x7FFFFFFFi32", "2_147_483_647i32", "K_I32_MAX"]),
-        (2147483646, ["2147483646i32"]), (-2147483648, ["-2147483648i32", "K_I32_MIN"]), (-2147483647, ["-2147483647i32"]),
+        (2147483646, ["2147483646i32"]), (2147483645, ["2147483645i32"]), (-2147483646, ["-2147483646i32"]), (-2147483648, ["-2147483648i32", "K_I32_MIN"]), (-2147483647, ["-2147483647i32"]),
         (127, ["127i32"]), (128, ["128i32", "0x80i32"]), (16, ["16i32", "0x10i32", "1_6i32"]),
     ],
     "Int64": [
         (0, ["0i64", "0", "-0", "0x0"]), (1, ["1i64", "1", "K_I64_1"]), (2, ["2", "2i64"]), (3, ["3"]), (4, ["4", "0x4"]), (-1, ["-1", "-1i64"]),
         (9223372036854775807, ["9223372036854775807", "0x7FFFFFFFFFFFFFFF", "9223372036854775807i64"]),
         (-9223372036854775808, ["-9223372036854775808", "K_I64_MIN"]), (4294967296, ["4294967296", "0x100000000i64"]),
-        (2147483648, ["2147483648"]), (-2147483649, ["-2147483649"]), (4294967297, ["4294967297"]),
+        (2147483648, ["2147483648"]), (-2147483649, ["-2147483649"]), (4294967297, ["4294967297"]), (2147483647, ["2147483647"]),
+        (2147483649, ["2147483649"]), (9223372036854775806, ["9223372036854775806"]), (9223372036854775805, ["9223372036854775805"]),
+        (-9223372036854775807, ["-9223372036854775807"]), (-9223372036854775806, ["-9223372036854775806"]), (-2, ["-2"]),
     ],
     "UInt8": [
         (0, ["0u8", "0x0u8"]), (1, ["1u8"]), (2, ["2u8"]), (3, ["3u8"]), (127, ["127u8", "0x7Fu8"]), (128, ["128u8", "0x80u8"]),
-        (254, ["254u8"]), (255, ["255u8", "0xFFu8", "K_U8_MAX"]),
+        (253, ["253u8"]), (254, ["254u8"]), (255, ["255u8", "0xFFu8", "K_U8_MAX"]),
     ],
     "Char": [
         ("a", ["'a'", "K_CH_A"]), ("b", ["'b'"]), ("A", ["'A'"]), ("0", ["'0'"]), (" ", ["' '"]), ("\n", ["'\\n'"]), ("'", ["'\\''"]),
@@ -55,6 +57,14 @@ LITS = {
 FRESH = {"Int32": (77777, "77777i32"), "Int64": (123456789012, "123456789012"), "UInt8": (77, "77u8"), "Char": ("Z", "'Z'"),
          "String": ("zz#", '"zz#"'), "Float64": (99.25, "99.25")}
 DENSE = {"Int32": [0, 1, 2, 3, 4, 5], "Int64": [0, 1, 2, 3, 4], "UInt8": [0, 1, 2, 3]}
+# runs of neighbouring values (jump-table lowering), some of them at the ends of the value range
+RUNS = {
+    "Int32": [[0, 1, 2, 3, 4, 5], [2, 3, 4, 5], [-2, -1, 0, 1, 2], [2147483645, 2147483646, 2147483647], [-2147483648, -2147483647, -2147483646],
+              [1, 2, 4, 5], [0, 2, 4, 16], [127, 128, 16]],
+    "Int64": [[0, 1, 2, 3, 4], [-2, -1, 0, 1], [2147483647, 2147483648, 2147483649], [9223372036854775805, 9223372036854775806, 9223372036854775807],
+              [-9223372036854775808, -9223372036854775807, -9223372036854775806], [1, 2, 4], [4294967296, 4294967297, 1]],
+    "UInt8": [[0, 1, 2, 3], [253, 254, 255], [1, 2, 3], [127, 128, 0], [0, 2, 3, 1]],
+}
 CONSTS = [
     "const K_I32_0: Int32 = 0i32;", "const K_I32_MAX: Int32 = 2147483647i32;", "const K_I32_MIN: Int32 = -2147483648i32;",
     "const K_I64_1: Int64 = 1;", "const K_I64_MIN: Int64 = -9223372036854775808;", "const K_U8_MAX: UInt8 = 255u8;",
@@ -1100,11 +1110,57 @@ def type_at(t, p, path):
     return t
 
 
+def dense_match(rng, pool):
+    """Int-like dispatch: the scrutinee is a payload-free enum or an integer, the arms name single values, alternatives of values or `_`."""
+    if rng.random() < 0.5:
+        t = pool.simple_enum(rng.choice([3, 3, 4, 4, 5, 6, 7, 8]))
+        keys = [("ctor", i, (), None) for i in range(len(t[3]))]
+    else:
+        kind = rng.choice(["Int32", "Int32", "Int64", "UInt8"])
+        run = list(rng.choice(RUNS[kind]))
+        t = ("lit", kind, tuple(run))
+        keys = [("lit", k, _LITMAP[kind][k][0]) for k in run]
+    rows = []
+    left = list(keys)
+    rng.shuffle(left)
+    for _ in range(rng.randint(2, 6)):
+        r = rng.random()
+        if r < 0.03:
+            rows.append(WILD)
+        elif r < 0.05:
+            rows.append(("bind", "_w%d" % len(rows)))
+        elif r < 0.75 or len(keys) < 3:
+            rows.append(left.pop() if left and rng.random() < 0.93 else rng.choice(keys))
+        else:
+            k = rng.choice([2, 2, 3])
+            alts = [left.pop() if left and rng.random() < 0.9 else rng.choice(keys) for _ in range(k)]
+            rows.append(("alt", tuple(alts)))
+    r = rng.random()
+    if r < 0.45:
+        rows.append(WILD)
+    elif r < 0.75 and left and t[0] == "enum":
+        rows.append(left[0] if len(left) == 1 else ("alt", tuple(left)))
+    rows = rows[-6:]
+    arms = []
+    ng = 0
+    pg = rng.choice([0.0, 0.0, 0.2, 0.4])
+    for p in rows:
+        if rng.random() < pg:
+            arms.append((p, ng))
+            ng += 1
+        else:
+            arms.append((p, None))
+    return Match(t, arms, "dense")
+
+
 def gen_file(rng, family, nmatches):
     """One file worth of sampled matches: (enum definitions, [Match])."""
     pool = Pool(rng, lits=(family == "lit"), wide=(family in ("restm", "rest")))
     out = []
     for _ in range(nmatches):
+        if family == "dense":
+            out.append(dense_match(rng, pool))
+            continue
         r = rng.random()
         cap = 16 if r < 0.3 else 64 if r < 0.65 else 256 if r < 0.9 else 1024 if r < 0.97 else MAXVALUES
         d = rng.choice([0, 1, 1, 2, 2, 2, 3, 3] if family not in ("restm", "restt") else [1, 1, 2, 2, 3])
